@@ -45,7 +45,7 @@ let tname = function
 | TTripleGreaterThan -> "TripleGreaterThan" | TGreaterThanEqual -> "GreaterThanEqual"
 let ev = function EOk v -> pv v | EErr -> "ERR"
 (* the per-bit loops are run literally by the model: widths beyond 2^20 are not evaluated here (C19's directed families cover magnitudes) *)
-let big_n v = match v with N0 -> false | Npos p -> List.length (pos_bits p []) > 20
+let big_n v = match v with N0 -> false | Npos p -> List.length (pos_bits p []) > 13
 let rec has_big_width = function
 | ESlice (l, r, e) -> (match l with ENum (v, _) -> big_n v | _ -> false) || has_big_width l || has_big_width r || has_big_width e
 | EShort (s, e) -> (match s with ENum (v, _) -> big_n v | _ -> false) || has_big_width s || has_big_width e
